@@ -10,12 +10,12 @@ KANI_MODULES = ["c20_constraints"]
 S = "similari::trackers::spatio_temporal_constraints::SpatioTemporalConstraints::"
 FN = [S + "add_constraints", S + "validate"]
 KANI = [
-    KH("c20_constraints::c20_empty_table", "quick", 120, "empty table admits every (gap, distance)", "all usize gaps, all f32 >= 0", [S + "validate"]),
-    KH("c20_constraints::c20_table_one_call_1", "quick", 300, "validate = reference; monotone in distance", "1 symbolic entry", FN),
-    KH("c20_constraints::c20_table_one_call_2", "quick", 300, "validate = reference; monotone in distance", "2 symbolic entries (order and duplicates free)", FN),
-    KH("c20_constraints::c20_table_one_call_3", "quick", 400, "validate = reference; monotone in distance", "3 symbolic entries (order and duplicates free)", FN),
-    KH("c20_constraints::c20_table_two_calls_1_1", "quick", 300, "two add_constraints calls: first configured limit of a gap wins", "1+1 symbolic entries", FN),
-    KH("c20_constraints::c20_table_two_calls_1_2", "quick", 400, "two add_constraints calls: first configured limit of a gap wins", "1+2 symbolic entries", FN),
+    KH("c20_constraints::c20_empty_table", "quick", 900, "empty table admits every (gap, distance)", "all usize gaps, all f32 >= 0", [S + "validate"]),
+    KH("c20_constraints::c20_table_one_call_1", "quick", 900, "validate = reference; monotone in distance", "1 symbolic entry", FN),
+    KH("c20_constraints::c20_table_one_call_2", "quick", 900, "validate = reference; monotone in distance", "2 symbolic entries (order and duplicates free)", FN),
+    KH("c20_constraints::c20_table_one_call_3", "quick", 900, "validate = reference; monotone in distance", "3 symbolic entries (order and duplicates free)", FN),
+    KH("c20_constraints::c20_table_two_calls_1_1", "quick", 900, "two add_constraints calls: first configured limit of a gap wins", "1+1 symbolic entries", FN),
+    KH("c20_constraints::c20_table_two_calls_1_2", "quick", 900, "two add_constraints calls: first configured limit of a gap wins", "1+2 symbolic entries", FN),
 ]
 
 # ===================================================================== engine M: how compatible() uses the table
